@@ -91,12 +91,13 @@ def check_case(rec):
             return out
         m2 = model.clone()
         m2.create_unique_names()
-        import sympy
-        reserved = {n for n in dir(sympy) if not n.startswith("_")}
+        # a unique name that the .ode language cannot hold as it is may carry a trailing underscore: the name in force
+        # is read off the imported model, not assumed
+        have = {a.name for a in list(ode.states) + list(ode.parameters) + list(ode.intermediates)}
         uname = {}
         for v in m2.variables(deep=True):
             u = v.uname()
-            uname[v.qname()] = u + "_" if u in reserved else u
+            uname[v.qname()] = u if u in have or (u + "_") not in have else u + "_"
         # states and constants appear under their unique names with their values
         got_states = {s.name: float(s.value) for s in ode.states}
         for q in qnames:
